@@ -596,6 +596,19 @@ void op_run_t(size_t K, Cur &c, Out &o)
     // optional: what the caller's label container holds before the call (0: empty; 1: as many entries as there are
     // vertices, the first and the last already right, the others stale; 2: too many stale entries; 3: N stale entries)
     size_t lprior = c.p < c.t.size() ? c.nat() : 0;
+    // optional: the shape of the caller's out-membership container; the library validates its element count only
+    // (0: N x K, 1: K x N, 2: N*K x 1, 3: 1 x N*K)
+    size_t ushape = c.p < c.t.size() ? c.nat() : 0;
+    if (ushape)
+    {
+        std::vector<double> fill(N * K, prior);
+        if (ushape == 1)
+            u = Matrix<double>(K, N, fill);
+        else if (ushape == 2)
+            u = Matrix<double>(N * K, 1, fill);
+        else
+            u = Matrix<double>(1, N * K, fill);
+    }
     std::vector<V> labels;
     if (lprior && !r.starts.empty())
     {
